@@ -24,6 +24,12 @@ def _hang(impl, m=None):
     for k in ("res", "cres", "fres"):
         if impl.get(k, "").startswith("hang"):
             return ("check-hang", f"the check did not return within the watchdog time ({k})")
+    if m is not None and m.get("cbound", "").isdigit():
+        # C15_calls_bounded: the proven bound on the storage operations of any check of this environment
+        for k in ("calls", "lcalls", "x_over"):
+            if impl.get(k, "").isdigit() and int(impl[k]) > int(m["cbound"]) and (k == "x_over" or int(impl[k]) <= CALL_BUDGET):
+                return ("check-unbounded", f"the check issued {impl[k]}{'+' if k == 'x_over' else ''} storage operations; the bound "
+                                           f"proved from depth, width, configuration and store size is {m['cbound']}")
     if "x_over" in impl and m is not None and m.get("calls", "").isdigit() and int(m["calls"]) <= CALL_BUDGET // 2:
         return ("check-unbounded", f"the check issued more than {CALL_BUDGET} storage operations (stopped by the harness); "
                                    f"the model needs {m['calls']}")
@@ -135,6 +141,8 @@ def oracle_c15_life(cid, impl, m):
     and releases its goroutines."""
     if "returned" not in impl:
         return None
+    if _hang(impl, m):
+        return _hang(impl, m)
     if impl["returned"] != "1":
         return ("c15-hang", f"check did not return within 10 s ({impl.get('kind')})")
     if impl.get("leak") != "0":
@@ -973,8 +981,9 @@ PROPS = {
         "assumptions": [],
     },
     "C15": {
-        "lean_module": ["Keto.Props.C15", "Keto.Props.C15cg", "Keto.Proofs.FactsTie"],
-        "theorems": ["Keto.C15_check_terminates", "Keto.C15_build_terminates", "Keto.C15_fuel_irrelevant",
+        "lean_module": ["Keto.Props.C15", "Keto.Props.C15cg", "Keto.Props.C15calls", "Keto.Proofs.FactsTie"],
+        "theorems": ["Keto.C15_calls_bounded", "Keto.C15_calls_bounded_of_le", "Keto.C15_calls_bounded_upper",
+                     "Keto.C15_check_terminates", "Keto.C15_build_terminates", "Keto.C15_fuel_irrelevant",
                      "Keto.CG.C15_cg_one_at_a_time", "Keto.CG.C15_cg_result", "Keto.CG.C15_cg_result_quiet", "Keto.CG.C15_cg_result_prefix",
                      "Keto.CG.C15_cg_ctx", "Keto.CG.C15_cg_no_leak", "Keto.CG.C15_cg_drain_progress", "Keto.CG.C15_cg_done_only_drain",
                      "Keto.CG.cg_no_drop", "Keto.FactsTie.chanSites_tie"],
@@ -997,8 +1006,9 @@ PROPS = {
         "assumptions": [],
     },
     "C01": {
-        "lean_module": ["Keto.Props.C01", "Keto.Props.C01complete"],
-        "theorems": ["Keto.C01_depth_sites_tie", "Keto.C01_sound_pos", "Keto.build_sound", "Keto.Cfg.pos_of_posB",
+        "lean_module": ["Keto.Props.C01", "Keto.Props.C01complete", "Keto.Props.C01ref"],
+        "theorems": ["Keto.refEval_sound_pos", "Keto.refEval_complete_pos", "Keto.refEval_iff_Mem_pos", "Keto.C01_engine_eq_ref_pos",
+                     "Keto.C01_depth_sites_tie", "Keto.C01_sound_pos", "Keto.build_sound", "Keto.Cfg.pos_of_posB",
                      "Keto.C01_complete_pos_general", "Keto.C01_exact_pos_general", "Keto.C01_complete_pos", "Keto.C01_exact_pos",
                      "Keto.C01_complete_pos_strict", "Keto.C01_complete_norewrite", "Keto.C01_complete_strict_counterexample"],
         "streams": [{"name": "engine-c01", "n": {"quick": 250, "thorough": 3000}, "oracle": oracle_c01, "thorough_seeds": 3},
